@@ -36,6 +36,11 @@ func RandomScript(rng *rand.Rand, idx int, nproofs int) tf.Script {
 	type pend struct{ id, min int }
 	var pending []pend
 	oss := []int{4, 4, 1, 2} // ScriptOK1, ScriptOK3, ScriptFail1 (world constants)
+	// the script mirrors the validator powers of the next height, so that it can ask for a real change
+	cur := map[int][]int{1: {100}, 2: {100, 100}, 3: {70, 20, 10}, 4: {40, 30, 20, 10}}[nv]
+	cur = append([]int{}, cur...)
+	atTip := false // the next proof is taken at the tip (the rich header)
+	rich := false  // the next block must have pairwise different, non-trivial header fields
 	block := func(withReqs bool) {
 		st := tf.M{"op": "Block", "dt": 1 + rng.Intn(7), "ns": nano(rng), "round": 0, "prop": rng.Intn(4), "vb": 11, "va": 0}
 		switch rng.Intn(6) {
@@ -51,14 +56,59 @@ func RandomScript(rng *rand.Rand, idx int, nproofs int) tf.Script {
 		if rng.Intn(8) == 0 {
 			st["dt"] = 100000 + rng.Intn(1000)
 		}
-		if rng.Intn(6) == 0 {
+		if rng.Intn(3) == 0 {
 			st["va"] = 1 + rng.Intn(300)
 		}
-		if rng.Intn(10) == 0 {
+		if rng.Intn(4) == 0 {
+			st["vb"] = 10 + rng.Intn(4)
+		}
+		if rng.Intn(2) == 0 {
 			st["evid"] = true
 		}
-		if rng.Intn(12) == 0 {
+		if rng.Intn(2) == 0 {
+			st["cp"] = 1 + rng.Intn(1000)
+		}
+		// an undecodable transaction: non-trivial DataHash now and LastResultsHash in the next header; a large
+		// one makes the block span several parts
+		switch x := rng.Intn(12); {
+		case x == 0:
 			st["junk"] = 70000 + rng.Intn(150000)
+		case x < 8:
+			st["junk"] = 8 + rng.Intn(40)
+		}
+		// the validator set of the next height: members re-weighted, removed (0) or re-added
+		if rng.Intn(5) < 2 {
+			pw := []int{0, 1, 10, 33, 100, 100}
+			var np []int
+			for i := 0; i < nv; i++ {
+				np = append(np, pw[rng.Intn(len(pw))])
+			}
+			if nv == 1 || rng.Intn(3) == 0 {
+				np[rng.Intn(nv)] = 1 + rng.Intn(200)
+			}
+			st["nextvals"] = np
+		}
+		if rich {
+			// every field the header-parts code folds together gets its own non-trivial value: evidence hash,
+			// consensus-params variant, a transaction (data hash), and a validator set for the next height that
+			// differs from the current one (one member re-weighted)
+			st["evid"], st["cp"] = true, 1+rng.Intn(1000)
+			if tf.Int(st, "junk", 0) == 0 {
+				st["junk"] = 8 + rng.Intn(40)
+			}
+			np := append([]int{}, cur...)
+			np[rng.Intn(nv)] += 1 + rng.Intn(50)
+			st["nextvals"] = np
+		}
+		if np, ok := st["nextvals"].([]int); ok {
+			sum := 0
+			for _, p := range np {
+				sum += p
+			}
+			if sum == 0 {
+				np[0] = 1
+			}
+			cur = append([]int{}, np...)
 		}
 		var votes []tf.M
 		for i := 0; i < nv; i++ {
@@ -111,7 +161,7 @@ func RandomScript(rng *rand.Rand, idx int, nproofs int) tf.Script {
 		st := tf.M{"op": "Proof", "kind": "result", "h": 0, "rids": []int{}}
 		// heights from which the proof is taken
 		pickH := func(min int) int {
-			if min > height || rng.Intn(4) == 0 {
+			if min > height || atTip || rng.Intn(4) == 0 {
 				return 0 // latest
 			}
 			return min + rng.Intn(height-min+1)
@@ -182,7 +232,16 @@ func RandomScript(rng *rand.Rand, idx int, nproofs int) tf.Script {
 		if rng.Intn(3) == 0 {
 			block(false)
 		}
+		if p%2 == 0 {
+			// two blocks whose headers are "rich" (the second one's LastResultsHash comes from the first one's tx)
+			rich = true
+			block(false)
+			block(false)
+			rich = false
+			atTip = true
+		}
 		proofStep()
+		atTip = false
 	}
 	return tf.Script{Fam: "BridgeVerify", C: c, Steps: steps}
 }
